@@ -163,7 +163,7 @@
     proof {
         lemma_insert_counts(old_m, gk, self.instances@[gk]);
         assert(self.instances@ =~= old_m.insert(gk, self.instances@[gk]));
-        assert(self.perpetual_host_set@ =~= perpetual_keys(self.instances@));   // @C11
+        assert(self.perpetual_host_set@ =~= perpetual_keys(self.instances@));   // @C11 @C01
     }
 @@ Service::update_instance_healthy_invalid spec
     requires old(self).wf()   // @C11
@@ -199,7 +199,7 @@
             lemma_insert_counts(old_m.remove(gk), gk, self.instances@[gk]);
             assert(self.instances@ =~= old_m.remove(gk).insert(gk, self.instances@[gk]));
             assert(self.instances@.dom() =~= old_m.dom());
-            assert(perpetual_keys(self.instances@) =~= perpetual_keys(old_m));   // @C11
+            assert(perpetual_keys(self.instances@) =~= perpetual_keys(old_m));   // @C11 @C01
         } else {
             assert(self.instances@ =~= old_m);
         }
@@ -235,7 +235,7 @@
             lemma_insert_counts(old_m.remove(gk), gk, self.instances@[gk]);
             assert(self.instances@ =~= old_m.remove(gk).insert(gk, self.instances@[gk]));
             assert(self.instances@.dom() =~= old_m.dom());
-            assert(perpetual_keys(self.instances@) =~= perpetual_keys(old_m));   // @C11
+            assert(perpetual_keys(self.instances@) =~= perpetual_keys(old_m));   // @C11 @C01
         } else {
             assert(self.instances@ =~= old_m);
         }
